@@ -123,6 +123,21 @@ def check(report: Report, repo: Repo) -> None:
                     fmt(target),
                 )
     report.floor("product-law instances", n, 12)
+    # the law is stated for Adam with eps=0 and no weight decay: a parameter group configured that way must
+    # reach torch's optimizer with exactly those settings (a dropped eps=0 silently becomes 1e-8)
+    sp_f = ito.get_global(OP, "scaled_parameters")
+    eta = SC.hyper("eta")
+    pz = mkparam("weight", 2, None)
+    cons = f"{OP}::scaled_parameters::group-options"
+    for indep in (True, False):
+        try:
+            grp = {"params": [pz], "eps": sp.Integer(0), "weight_decay": sp.Integer(0), "amsgrad": False}
+            res = ito.call_function(sp_f, [[grp], adam], {"lr": eta, "independent_weight_decay": indep})
+            g0 = res[0] if isinstance(res, list) and len(res) == 1 and isinstance(res[0], dict) else None
+            ok = g0 is not None and "eps" in g0 and TM.expr_equal(g0["eps"], 0) is True and TM.expr_equal(g0.get("weight_decay"), 0) is True and g0.get("amsgrad", "<dropped>") is False
+            report.add("law", cons, ok, f"independent_weight_decay={indep}: a group with eps=0, weight_decay=0, amsgrad=False keeps exactly these settings in the per-parameter group", fmt({k: v for k, v in (g0 or {}).items() if k != "params"}), "eps=0, weight_decay=0, amsgrad=False")
+        except Unsupported as e:
+            report.add("law", cons, None, f"outside fragment: {e}")
     # the depth D entering the law is the tag the depth containers record: must be the number of layers
     from .c08 import check_depth_containers
 
